@@ -33,8 +33,15 @@ def deps (j : Json) : R Json := do
   let timeout ← fldBool j "timeout"
   pure (obj [("A", jbool timeout), ("B", jbool false), ("C", jbool timeout)])
 
+/-- a dependency watching its context while a sibling named in the same call fails (no -t, no signal) -/
+def sibling (j : Json) : R Json := do
+  let style := if (← fldStr j "style") == "ctx" then Style.ctxDeps else Style.deps
+  let cancelled := depCancelled style false false true
+  pure (obj [("watch", jstr (if cancelled then "cancelled" else "live")), ("status", jnat 3)])
+
 def handle (op : String) (j : Json) : R Json :=
   match op with
+  | "c12.sibling" => sibling j
   | "c12.run" => run j
   | "c12.deps" => deps j
   | _ => throw s!"unknown op {op}"
